@@ -54,8 +54,11 @@ func QueryRef() {
 		verifrt.Known("KF-C05-string-keyword", o2 == acc)
 		o3, _ := RefQuery(sig, Liberties{VarInVarDefDirective: true})
 		verifrt.Known("KF-C05-var-in-vardef-directive", o3 == acc)
-		o4, _ := RefQuery(StringKeywordsAsNames(sig), Liberties{EmptyDocument: true, VarInVarDefDirective: true})
-		verifrt.Known("KF-C05-combination", o4 == acc)
+		if o1 != acc && o2 != acc && o3 != acc {
+			// several of the listed findings in one input
+			o4, _ := RefQuery(StringKeywordsAsNames(sig), Liberties{EmptyDocument: true, VarInVarDefDirective: true})
+			verifrt.Known("KF-C05-combination", o4 == acc)
+		}
 	}
 	verifrt.Assert((err == nil) == ok, "C05.accepts-iff-derivable")
 	if err != nil || !ok {
